@@ -30,10 +30,9 @@ AddLn(x) == /\ ~fin /\ Len(cb.svcs) > 0 /\ Len(LastSvc.ls) < MaxLs
             /\ x \notin UsedLs
             /\ \A j \in 1..Len(LastSvc.ls) : LastSvc.ls[j][2] <= x[2]      \* canonical order: fewer duplicates
             /\ cb' = [cb EXCEPT !.svcs[Len(cb.svcs)].ls = Append(LastSvc.ls, x)] /\ UNCHANGED fin
-\* legacy keys: one id per cipher+secret and port (attribution among duplicates is not specified for legacy ports)
+\* legacy keys in ANY order (ports may interleave): one id per cipher+secret and port (attribution among duplicates is not specified for legacy ports)
 AddLegacy(p, k) == /\ ~fin /\ Len(cb.legacy) < MaxLegacy /\ Len(cb.svcs) = 0
                    /\ \A i \in 1..Len(cb.legacy) : ~(cb.legacy[i][1] = p /\ KeyCS[cb.legacy[i][2]] = KeyCS[k])
-                   /\ \A i \in 1..Len(cb.legacy) : cb.legacy[i][1] <= p
                    /\ cb' = [cb EXCEPT !.legacy = Append(cb.legacy, <<p, k>>)] /\ UNCHANGED fin
 GFinish == /\ ~fin /\ Len(cb.svcs) + Len(cb.legacy) > 0
            /\ \A i \in 1..Len(cb.svcs) : Len(cb.svcs[i].ls) > 0
